@@ -3,6 +3,7 @@ package main
 import (
 	"bytes"
 	"fmt"
+	"github.com/0xReLogic/Helios/internal/config"
 	"io"
 	"math/rand"
 	"net"
@@ -335,7 +336,7 @@ func ensureRelayBackends() *relayEnv {
 
 func heliosForRelay(c *relayCase) (*helios, error) {
 	env := ensureRelayBackends()
-	k := heliosKey{strategy: c.d(10), ids: c.d(11), plugin: c.d(12), base: c.d(9)}
+	k := heliosKey{strategy: c.d(10), ids: c.d(11), plugin: c.d(12), base: c.d(9), extra: c.d(13)}
 	heliosMu.Lock()
 	defer heliosMu.Unlock()
 	if h, ok := heliosMap[k]; ok {
@@ -349,6 +350,12 @@ func heliosForRelay(c *relayCase) (*helios, error) {
 	if k.plugin == "logging" {
 		cfg.Plugins.Enabled = true
 		cfg.Plugins.Chain = append(cfg.Plugins.Chain, pluginCfg("logging"))
+	}
+	if k.extra == "guards" {
+		// enabled, with limits no run reaches: the guards must stay invisible
+		cfg.CircuitBreaker = config.CircuitBreakerConfig{Enabled: true, MaxRequests: 1000000, FailureThreshold: 1000000, SuccessThreshold: 1, IntervalSeconds: 3600, TimeoutSeconds: 1}
+		cfg.RateLimit = config.RateLimitConfig{Enabled: true, MaxTokens: 1000000, RefillRate: 1000000}
+		cfg.HealthChecks.Passive = config.PassiveHealthCheckConfig{Enabled: true, UnhealthyThreshold: 1000000, UnhealthyTimeout: 1}
 	}
 	h, err := startHelios(cfg)
 	if err != nil {
